@@ -139,7 +139,7 @@ def scenarios(tier):
                 wins = [(255, 7)] if base == 1e-3 else []
             for (wa, wb) in wins:
                 sc = {'dll': DLL, 'stacks': stacks3(wa, wb), 'base_lat': base,
-                      'msgs': [msg(0x10, 'p2p', 0x20, size, pat=size % 3)]}
+                      'msgs': [msg(0x10, 'p2p', 0x20, size, pat=size % 3, dp=size % 2)]}
                 items.append((sc, 0))
             if not big or base in (1e-3, 0.0):
                 if quick or size in BOUNDARY or base == 1e-3:
@@ -147,7 +147,7 @@ def scenarios(tier):
                         if big and kind == 'bam1' and quick:
                             continue
                         sc = {'dll': DLL, 'stacks': stacks3(), 'base_lat': base,
-                              'msgs': [msg(0x10, kind, dst, size, pat=(size + 1) % 3)]}
+                              'msgs': [msg(0x10, kind, dst, size, pat=(size + 1) % 3, dp=size % 2)]}
                         items.append((sc, 0))
     # (b) concurrent message sets, both directions, two CAs of one stack to the same DA,
     #     deviation-bounded over per-frame latencies and per-wait wake latencies
